@@ -652,6 +652,8 @@ func shrinkJob(t *testing.T, p *Property, j job) {
 		x.Sched.Explicit = true
 		x.Sched.Steps = append([]int64(nil), res.PreemptSteps...)
 		x.Sched.StallPPM = best.Sched.StallPPM
+		x.Sched.HoldMax = best.Sched.HoldMax
+		x.Sched.HotPPM = best.Sched.HotPPM
 		if ok, _ := fails(x); ok {
 			best = x
 		}
